@@ -22,7 +22,7 @@ from vlib.core import lib, check, Violation
 ID = "C07"
 TITLE = "Reindexing moves data together with its labels"
 RULE = ("generated arrays (1-4 dims, sizes 1-4, int/float/str labels in any order, float/int/bool values) x axis by name or position x new "
-        "labels (subset | superset | disjoint | permuted | repeated | empty | int-for-float) given as list / ndarray / Axis x fill in "
+        "labels (subset | superset | disjoint | permuted | repeated (present and absent labels) | empty | int-for-float) given as list / ndarray / Axis x fill in "
         "{NaN, -1, 'missing'} x raise_error x method in {None, left, right}; reindex_like with a template sharing 0..all dimensions; "
         "identity on own labels.  Non-trivial: the source axis is not stored increasing and the new vector is not a prefix of it, or "
         "some label is missing.")
@@ -31,7 +31,7 @@ ASSUMPTIONS = [
     "method left/right: j = clip(bisect_<side>(sorted labels, l), 0, n-1), written from the statement",
     "new labels are of the axis' kind (int/float interchangeable)",
 ]
-MANDATORY = ["new:float-for-int", "new:repeated", "new:empty", "new:missing", "new:permuted", "as:axis", "as:array", "fill:str", "fill:-1", "fill:nan-into-int",
+MANDATORY = ["new:float-for-int", "new:repeated", "new:repeated-missing", "new:empty", "new:missing", "new:permuted", "as:axis", "as:array", "fill:str", "fill:-1", "fill:nan-into-int",
              "raise_error:raised", "method:left", "method:right", "source:shuf", "axis:not-first", "like", "identity"]
 
 
@@ -61,6 +61,11 @@ def new_labels(draw, labs):
             # insert absent labels below / between as well
             new = new + [gen.absent_label(labs, kind, w) for w in draw(st.lists(st.sampled_from(["below", "between", "above"]), max_size=2))]
             new = list(draw(st.permutations(list(dict.fromkeys(new)))))
+    if new and draw(st.integers(0, 4)) == 0:
+        # some of the requested labels asked for more than once (present and absent ones alike)
+        new = list(new)
+        for x in draw(st.lists(st.sampled_from(new), min_size=1, max_size=2)):
+            new.insert(draw(st.integers(0, len(new))), x)
     if draw(st.integers(0, 4)) == 0:
         falsy = {"i": 0, "f": 0.0, "s": ""}[kind]        # 0 / 0.0 / '' asked for although the axis does not have it (alone or next to other absent labels)
         if falsy not in labs and falsy not in new:
@@ -208,6 +213,8 @@ def run_axis(case):
     canon_old = [core.canon_label(x) for x in labels[ax]]
     if len(set(canon_new)) < len(canon_new):
         cl.add("new:repeated")
+        if any(m and canon_new.count(c) > 1 for c, m in zip(canon_new, missing)):
+            cl.add("new:repeated-missing")
     if not new:
         cl.add("new:empty")
     if core.label_kind(labels[ax]) == "i" and any(isinstance(x, float) and x != int(x) for x in new):
